@@ -95,6 +95,8 @@ enum Ev {
     AnnounceRefs(usize),
     AddInventory(usize),
     Tick(u64),
+    Restart,
+    SetDoc(usize, bool, Vec<usize>),
 }
 
 struct Scenario {
@@ -245,6 +247,7 @@ fn w5s_coq(l: &[W5]) -> String {
 struct StepObs {
     writes: Vec<W5>,
     discs: Vec<u64>,
+    invs: Vec<(u64, Vec<u64>)>,
 }
 
 fn ann_w5(w: &World, to: usize, a: &Announcement) -> W5 {
@@ -260,6 +263,7 @@ fn ann_w5(w: &World, to: usize, a: &Announcement) -> W5 {
 fn drain(w: &mut World, raw: &mut Vec<(usize, Announcement)>) -> StepObs {
     let mut writes = vec![];
     let mut discs = vec![];
+    let mut invs: Vec<(u64, Vec<u64>)> = vec![];
     let ios: Vec<Io> = w.alice.outbox().collect();
     for io in ios {
         match io {
@@ -267,6 +271,14 @@ fn drain(w: &mut World, raw: &mut Vec<(usize, Announcement)>) -> StepObs {
                 let to = w.nids.iter().position(|n| *n == nid).unwrap();
                 for m in msgs {
                     if let Message::Announcement(a) = m {
+                        if a.node == w.nids[0] {
+                            if let AnnouncementMessage::Inventory(inv) = &a.message {
+                                let mut l: Vec<u64> = inv.inventory.iter()
+                                    .map(|x| w.rids.iter().position(|y| y == x).unwrap() as u64).collect();
+                                l.sort();
+                                invs.push((to as u64, l));
+                            }
+                        }
                         writes.push(ann_w5(w, to, &a));
                         raw.push((to, a));
                     }
@@ -282,7 +294,8 @@ fn drain(w: &mut World, raw: &mut Vec<(usize, Announcement)>) -> StepObs {
     }
     writes.sort();
     discs.sort();
-    StepObs { writes, discs }
+    invs.sort();
+    StepObs { writes, discs, invs }
 }
 
 fn apply(w: &mut World, ev: &Ev, pool: &[AnnSpec]) {
@@ -327,6 +340,15 @@ fn apply(w: &mut World, ev: &Ev, pool: &[AnnSpec]) {
             let m = service::Metrics::default();
             w.alice.tick(LocalTime::from_millis(*now as u128), &m);
         }
+        Ev::Restart => w.alice.restart(),
+        Ev::SetDoc(r, public, allowed) => {
+            let vis = if *public { Visibility::Public } else {
+                Visibility::Private { allow: allowed.iter().map(|p| Did::from(w.nids[*p])).collect() }
+            };
+            let rid = w.rids[*r];
+            let repo = w.alice.storage_mut().repo_mut(&rid);
+            repo.doc.doc = repo.doc.doc.clone().with_edits(|d| d.visibility = vis.clone()).unwrap();
+        }
     }
 }
 
@@ -340,6 +362,8 @@ fn ev_coq(ev: &Ev, pool: &[AnnSpec]) -> String {
         Ev::AnnounceRefs(r) => format!("(ECmdAnnounceRefs {})", r),
         Ev::AddInventory(r) => format!("(ECmdAddInventory {})", r),
         Ev::Tick(now) => format!("(ETick {})", now),
+        Ev::Restart => "ERestart".to_string(),
+        Ev::SetDoc(r, p, al) => format!("(ESetDoc {} (mkDoc {} {}))", r, p.coq(), al.iter().map(|x| *x as u64).collect::<Vec<_>>().coq()),
     }
 }
 
@@ -450,8 +474,14 @@ fn run_case(run: &mut Run, prop: &str, id: &str, seed: u64, stream: u64, index: 
     orc.own_max = T0 + 2;
     let mut tallies: BTreeSet<&'static str> = BTreeSet::new();
     let mut connected: BTreeSet<usize> = BTreeSet::new();
-    let world_visible = |rid: usize, p: usize, sc: &Scenario| -> bool {
-        if let Some((public, al)) = sc.local.get(&rid) { *public || al.contains(&p) }
+    // identity documents of local repositories can change during a scenario (SetDoc)
+    let mut docs: BTreeMap<usize, (bool, Vec<usize>)> = sc.local.clone();
+    let mut ever_public: BTreeSet<usize> = docs.iter().filter(|(_, d)| d.0).map(|(r, _)| *r).collect();
+    // own announcements with a timestamp above this were created by/after a restart that
+    // followed the last public -> private change
+    let mut restart_floor: Option<u64> = None;
+    let world_visible = |rid: usize, p: usize, docs: &BTreeMap<usize, (bool, Vec<usize>)>, sc: &Scenario| -> bool {
+        if let Some((public, al)) = docs.get(&rid) { *public || al.contains(&p) }
         else if let Some(al) = sc.foreign_private.get(&rid) { al.contains(&p) }
         else { true }
     };
@@ -474,7 +504,17 @@ fn run_case(run: &mut Run, prop: &str, id: &str, seed: u64, stream: u64, index: 
                     Ev::RecvAnn(p, pool.len() - 1)
                 }
             }
-        } else { match r.below(20) {
+        } else { match r.below(22) {
+            20 => Ev::Restart,
+            21 => {
+                let c: Vec<usize> = docs.keys().cloned().collect();
+                if c.is_empty() { Ev::Elapse(1) } else {
+                    let rid = *r.pick(&c);
+                    let public = !docs[&rid].0 || r.chance(1, 4);
+                    let allowed: Vec<usize> = (1..=sc.npeers).filter(|_| r.chance(1, 3)).collect();
+                    Ev::SetDoc(rid, public, allowed)
+                }
+            }
             0 | 1 => Ev::Connect(r.range(1, sc.npeers as u64) as usize),
             2 => Ev::Disconnect(r.range(1, sc.npeers as u64) as usize),
             3 | 4 => {
@@ -499,7 +539,7 @@ fn run_case(run: &mut Run, prop: &str, id: &str, seed: u64, stream: u64, index: 
             7 => Ev::AnnounceRefs(r.range(1, sc.nrids as u64) as usize),
             8 => Ev::AddInventory({
                 // the callers of AddInventory only pass public repositories (or unknown ones)
-                let c: Vec<usize> = (1..=sc.nrids).filter(|x| sc.local.get(x).map(|d| d.0).unwrap_or(true)).collect();
+                let c: Vec<usize> = (1..=sc.nrids).filter(|x| docs.get(x).map(|d| d.0).unwrap_or(true)).collect();
                 if c.is_empty() { 0 } else { *r.pick(&c) }
             }),
             _ => {
@@ -552,6 +592,16 @@ fn run_case(run: &mut Run, prop: &str, id: &str, seed: u64, stream: u64, index: 
             break;
         }
         if let Ev::Elapse(dt) = &ev { clock += dt; }
+        if let Ev::SetDoc(r0, p0, al0) = &ev {
+            if docs.get(r0).map(|d| d.0).unwrap_or(false) && !*p0 { restart_floor = None; tallies.insert("repo-made-private"); }
+            docs.insert(*r0, (*p0, al0.clone()));
+            if *p0 { ever_public.insert(*r0); }
+        }
+        if let Ev::Restart = &ev {
+            let tmax = table(&mut w).iter().filter(|t| t.0 == 0).map(|t| t.3).max().unwrap_or(0);
+            restart_floor = Some(tmax.max(orc.own_max));
+            tallies.insert("restart");
+        }
         if let Ev::Tick(now) = &ev { if *now < clock { tallies.insert("clock-reading-in-the-past"); } clock = clock.max(*now); }
         match &ev { Ev::Connect(p) => { connected.insert(*p); } Ev::Disconnect(p) => { connected.remove(p); } _ => {} }
         let mut raw = vec![];
@@ -639,8 +689,13 @@ fn run_case(run: &mut Run, prop: &str, id: &str, seed: u64, stream: u64, index: 
                     if let AnnouncementMessage::Inventory(inv) = &a.message {
                         for x in inv.inventory.iter() {
                             let ri = w.rids.iter().position(|y| y == x).unwrap();
-                            if !sc.local.get(&ri).map(|d| d.0).unwrap_or(false) {
-                                run.fail(id, "c11-private-repo-in-inventory", format!("own inventory announcement lists repository {} which is not a public local repository", ri), json!({"step": step}));
+                            if !docs.get(&ri).map(|d| d.0).unwrap_or(false) {
+                                // known window: the repository was public and has been made private, and this
+                                // announcement predates the first restart after that change
+                                let after_restart = restart_floor.map(|f| ts > f).unwrap_or(false);
+                                let class = if ever_public.contains(&ri) && !after_restart { "c11-inventory-lists-repo-made-private" }
+                                            else { "c11-private-repo-in-inventory" };
+                                run.fail(id, class, format!("own inventory announcement (t={}) lists repository {} which is not a public local repository", ts, ri), json!({"step": step}));
                             }
                         }
                     }
@@ -673,17 +728,18 @@ fn run_case(run: &mut Run, prop: &str, id: &str, seed: u64, stream: u64, index: 
                     }
                 }
             }
-            if kind == 2 && prop == "C11" && !world_visible(rid, *to, &sc) {
+            if kind == 2 && prop == "C11" && !world_visible(rid, *to, &docs, &sc) {
                 let class = if !sc.local.contains_key(&rid) { "c11-refs-leak-repo-absent-from-storage" }
                             else if node == 0 { "c11-refs-leak-own-announcement" } else { "c11-refs-leak-relayed" };
                 run.fail(id, class, format!("refs announcement for private repository {} (announcer {}) sent to peer {} which may not see it", rid, node, to), json!({"step": step}));
             }
-            if kind == 2 && !sc.local.get(&rid).map(|d| d.0).unwrap_or(true) { tallies.insert("private-refs-sent-to-allowed-peer"); }
+            if kind == 2 && !docs.get(&rid).map(|d| d.0).unwrap_or(true) { tallies.insert("private-refs-sent-to-allowed-peer"); }
         }
         obs.push(so);
     }
     // ---- record the correspondence case
-    let steps: Vec<String> = obs.iter().map(|o| format!("(mkStep {} {})", w5s_coq(&o.writes), o.discs.coq())).collect();
+    let steps: Vec<String> = obs.iter().map(|o| format!("(mkStep {} {} [{}])", w5s_coq(&o.writes), o.discs.coq(),
+        o.invs.iter().map(|(p, l)| format!("(mkInv {} {})", p, l.coq())).collect::<Vec<_>>().join("; "))).collect();
     let expected = if panicked.is_some() { "GPanicked".to_string() } else {
         let t = table(&mut w);
         format!("(GRun [{}] {})", steps.join("; "), w5s_coq(&t))
